@@ -1,8 +1,12 @@
 (** C09 — the *expected* column, written by hand (no proofs here).
 
     [expected v w m] is the class the body of method [m] of implementor [w] must have for the theorems of Proofs.v to
-    apply.  [v = false] is the tree as it is; [v = true] is the tree with fixes/F14.patch (an empty Vec answers like
-    `None`): both are accepted, and the theorems about the empty Vec say which one they need.
+    apply.  The only switch is finding F18: inside an `and_then` pair (`impl Subscribe for Layered`) the code hands
+    `on_register_dispatch` to the outer half first ([v = false], the tree as it is); [v = true] is the tree with
+    fixes/F18.patch (inner half first, like every other notification).  Both are accepted; which one the repository has is
+    read off the generated table ([f18_fixed]), and the one theorem that depends on it says so.
+    (F8, F14 are repaired: `Vec::register_callsite` is the all-fold, an empty `Vec` carries the `None` marker; the
+    pre-repair classes still exist in Syntax.v so that a tree with them has a model, but this column rejects them.)
     A method later added to a trait and not forwarded by some wrapper shows up as a `Missing` row that differs from
     this column (and as a name [undecoded] does not know), so [table_ok] computes to [false] and
     [C09_table_transparent] no longer compiles; [bad_rows] names the offenders for the driver. *)
@@ -49,10 +53,10 @@ Definition expected (v : bool) (w : wrapper) (m : meth) : cls :=
   | WBoxS | WBoxDynS => match m with downcast_raw => Downcast DcFwd | _ => Fwd end
   | WVecS =>
       match m with
-      | register_callsite => FwdAll (if v then CInterestHighestOrAlways else CInterestHighest)
+      | register_callsite => FwdAll CInterestAll
       | enabled | event_enabled => FwdAll CAll
       | max_level_hint => FwdAll CHintMax
-      | downcast_raw => Downcast (if v then DcVecNoneIfEmpty else DcVec)
+      | downcast_raw => Downcast DcVecNoneIfEmpty
       | _ => FwdAll CUnit
       end
   | WReloadS =>
@@ -65,7 +69,8 @@ Definition expected (v : bool) (w : wrapper) (m : meth) : cls :=
       end
   | WLayeredS =>
       match m with
-      | on_register_dispatch | on_subscribe => Seq2 OuterInner n n
+      | on_register_dispatch => Seq2 (if v then InnerOuter else OuterInner) n n
+      | on_subscribe => Seq2 OuterInner n n
       | register_callsite => PickInterest n n
       | enabled | event_enabled => Gate n n false
       | max_level_hint => PickHint "subscriber_is_none"
@@ -143,8 +148,9 @@ Definition gen_meta_ok : bool :=
 Definition table_ok : bool :=
   (rows_ok false gen_tables || rows_ok true gen_tables) && defaults_ok gen_tables && gen_meta_ok.
 
-(** Is the repository the one with fixes/F14.patch? *)
-Definition f14_fixed (tb : tables) : bool := cls_eqb (lk tb WVecS register_callsite) (FwdAll CInterestHighestOrAlways).
+(** Is the repository the one with fixes/F18.patch? *)
+Definition f18_fixed (tb : tables) : bool :=
+  cls_eqb (lk tb WLayeredS on_register_dispatch) (Seq2 InnerOuter "on_register_dispatch" "on_register_dispatch").
 
 (** For the driver: the generated rows that break the obligation, (implementor, method, found, expected). *)
 Definition bad_rows : list (string * string * cls * cls) :=
